@@ -28,9 +28,9 @@ SIDES = ["onesided", "twosided", "centerdc"]
 _FS = {"fs": 1.0}
 
 
-def _make(cplx, nfft, vals):
+def _make(cplx, nfft, vals, nd=None):
     from spectrum import Spectrum
-    data = np.arange(1, nfft + 1).astype(complex if cplx else float)
+    data = np.arange(1, (nd or nfft) + 1).astype(complex if cplx else float)
     s = Spectrum(data, NFFT=nfft, sampling=_FS["fs"], scale_by_freq=False)
     s.psd = np.array(vals, dtype=float)
     return s
@@ -94,7 +94,12 @@ def run_hist(p):
     """returns the vector exposed by each op (stored psd after an assignment, returned vector of a get)"""
     _FS["fs"] = p.get("fs", 1.0)
     try:
-        s = _make(p["cplx"], p["nfft"], p["vals"])
+        # the record length is independent of NFFT: half of the histories run on an object whose data length has the other
+        # parity (N = NFFT - 1), a third of those on N = NFFT - 3 (deterministic in the parameters, so replays agree)
+        nfft = p["nfft"]
+        h = (len(p["ops"]) + nfft + int(round(float(np.sum(np.asarray(p["vals"])) * 8)))) % 6
+        nd = nfft if h < 3 or nfft < 2 else (nfft - 1 if h < 5 or nfft < 4 else nfft - 3)
+        s = _make(p["cplx"], nfft, p["vals"], nd)
     finally:
         _FS["fs"] = 1.0
     outs = []
